@@ -98,13 +98,12 @@ def run_case(c):
         m = build_machine(si)
         out["machine"] = machine_out(m, order)
         qs = []
-        for x in range(-1, m.width + 1):
-            for y in range(-1, m.height + 1):
-                inn = (x, y) in m
-                r = m[(x, y)] if inn else None
-                qs.append([x, y, 1 if inn else 0,
-                           None if r is None else [r[Cores], r[SDRAM], r[SRAM]],
-                           sum(1 << int(l) for l in Links if (x, y, l) in m)])
+        for x, y in c["mq"]:
+            inn = (x, y) in m
+            r = m[(x, y)] if inn else None
+            qs.append([x, y, 1 if inn else 0,
+                       None if r is None else [r[Cores], r[SDRAM], r[SRAM]],
+                       sum(1 << int(l) for l in Links if (x, y, l) in m)])
         out["machine_queries"] = qs
         out["machine_iter"] = [list(xy) for xy in m]
     except Exception as e:
